@@ -234,3 +234,6 @@ Definition run_chk_mgr (fam : Z) (x : sx) : sx :=
       end
   | _ => A (-1)
   end.
+
+(* DISPATCH: 102 => run_chk_mgr 1 *)
+(* DISPATCH: 702 => run_chk_mgr 7 *)
